@@ -5,7 +5,10 @@ model) is executed on K freshly built replicas that differ only in *when*
 lookups are issued: none until the end; after every step; random bursts;
 threshold-targeted (lookups placed when the number of index-affecting edits
 pending on a container is size-1, size, size+1 of that container);
-lookup-then-immediately-again.  At the end every replica answers the
+lookup-then-immediately-again.  At one to several *sync points* inside the
+history the four replicas that may look answer one common small probe and
+must agree with the one that looked after every step (a divergence that a
+later rebuild heals is still observable there).  At the end every replica answers the
 identical complete probe set (all C05/C06/C13 lookups + Section.address/
 size); all answer vectors must be equal.  A diagnostic hook on the lazy
 index classifies the maintenance path actually taken (evidence only)."""
@@ -19,12 +22,14 @@ META = {
     "rule": "layout histories (10-60 edits, no implementation-chosen "
             "results) x 5 lookup schedules per history; final probe = "
             "complete point sweep + 20 critical-coordinate ranges through "
-            "every lookup at every scope; stream 'scale': one container "
+            "every lookup at every scope; >= 1 sync point per history (3 "
+            "queries + all extents on the 4 looking replicas); stream 'scale': one container "
             "with 40/300/1100/2100 members (thorough up to 4200), edits = "
             "0.3-1.1 x members, three lookup schedules. Non-trivial = every "
             "history; "
             "distinct = hash of the operation list.",
     "reach": {"replicas_compared": 200, "final_answers_compared": 500000,
+              "sync_points": 300, "sync_answers_compared": 200000,
               # harness-side count of index-affecting edits pending on a
               # container when a targeted lookup is placed (independent of
               # private names; the lazy:* counters from the diagnostic hook
@@ -104,6 +109,8 @@ def run(ctx):
         for op in model.initial():
             do(op)
         nops = rnd.choice([10, 20, 40, 60])
+        rnd_sync = random.Random(case.seed_str + ":sync")
+        sync_at = rnd_sync.randrange(nops)
         for step in range(nops + 1):
             if step == nops:
                 # the history ends with a burst now and then, so that what
@@ -152,6 +159,39 @@ def run(ctx):
                         if n and abs(rep.pending_iv[s] - n) <= 1 and \
                                 r.random() < 0.8:
                             targeted(ctx, rep, model, r, s)
+            # sync point: every replica that is allowed to look answers one
+            # common small probe *now*; a divergence here is observable even
+            # when a later rebuild heals the index before the final probe.
+            # ('none' stays lookup-free until the end.)
+            if step < nops and (step == sync_at or rnd_sync.random() < 0.06):
+                sq = model.gen_queries(rnd_sync, 3)
+                svec = []
+                for rep in reps[1:]:
+                    ans = []
+                    layout.probe(ctx, rep, model, sq, answers=ans,
+                                 judge=False)
+                    layout.check_extents(ctx, rep, model, answers=ans,
+                                         judge=False)
+                    svec.append(ans)
+                ctx.count("sync_points")
+                for name, v in zip(SCHEDULES[2:], svec[1:]):
+                    ctx.count("sync_answers_compared", len(v))
+                    if v != svec[0]:
+                        k = next(i for i, (a, b) in
+                                 enumerate(zip(svec[0], v)) if a != b) \
+                            if len(v) == len(svec[0]) else -1
+                        a, b = (svec[0][k], v[k]) if k >= 0 else ("?", "?")
+                        raise Discrepancy(
+                            "C12", "schedule-dependent-answer:sync:%s:%s" % (
+                                name, a[0] if k >= 0 else "length"),
+                            "after %d steps of the same edit history, "
+                            "%s(%s) on %s answers %s on the replica that "
+                            "looked after every step and %s under the '%s' "
+                            "lookup schedule" % (
+                                step + 1, a[0], a[1], a[2], a[3], b[3], name)
+                            if k >= 0 else
+                            "answer vectors differ in length",
+                            {"schedule": name, "step": step})
         # identical complete final probe on every replica
         qrnd = random.Random(case.seed_str + ":final")
         qs = model.gen_queries(qrnd, 6 if large or regime == "medium"
